@@ -58,6 +58,7 @@ type verifSAView struct {
 type verifSACase struct {
 	SQL     string   `json:"sql"`
 	Hdr     string   `json:"hdr"`
+	XHdr    string   `json:"xhdr"`    // ep=measurement only: the x-arc-database header (hdr is the database parameter there)
 	Ep      string   `json:"ep"`      // query | estimate | arrow | msgpack | measurement
 	Meas    string   `json:"meas"`    // ep=measurement: GET /api/v1/query/<meas>?database=<hdr>&where=<sql>&order_by=id
 	Allow   []string `json:"allow"`   // databases the RBAC stub allows ("*" = everything)
@@ -178,7 +179,7 @@ func verifSAExecuted(logs string) *string {
 				}
 			}
 		}
-		if !strings.Contains(line, "\"Executing query\"") {
+		if !strings.Contains(line, "\"Executing query\"") && !strings.Contains(line, "\"Executing Arrow query\"") {
 			continue
 		}
 		var m map[string]interface{}
@@ -356,6 +357,9 @@ func verifSARun(t *testing.T, in *verifSAIn, outs []verifSAOut) {
 			}
 			q.Set("order_by", "id")
 			r = httptest.NewRequest("GET", "/api/v1/query/"+url.PathEscape(c.Meas)+"?"+q.Encode(), nil)
+			if c.XHdr != "" {
+				r.Header.Set("x-arc-database", c.XHdr)
+			}
 		} else if c.Hdr != "" {
 			r.Header.Set("x-arc-database", c.Hdr)
 		}
@@ -452,6 +456,9 @@ func verifSARun(t *testing.T, in *verifSAIn, outs []verifSAOut) {
 			}
 			o.ReadSet = []string{}
 			for _, m := range in.Measures {
+				if strings.HasPrefix(o.ReadErr, "Parser Error") || strings.Contains(o.ReadErr, ": Parser Error") {
+					break // refused before anything is bound or opened: the error cannot depend on a directory
+				}
 				src := filepath.Join(base, filepath.FromSlash(m))
 				hid := filepath.Join(dir, "hidden_"+strings.ReplaceAll(m, "/", "_"))
 				if err := os.Rename(src, hid); err != nil {
